@@ -171,6 +171,7 @@ def check(rep, c, cfg):
                         "refusal is returned as a success (the tracker must copy the limit when it is created)" % b["name"])
 
     setter(rep, c, sfx, ctors)
+    width(rep, c, sfx, ctors, adt)
 
     # ---------------------------------------------------------------- EXITS
     r2 = rep.rule("C12.EXITS" + sfx, 2,
@@ -225,7 +226,7 @@ def check(rep, c, cfg):
         r2.instance(k, where(st["body"]), "%d exit paths" % n)
 
     # ---------------------------------------------------------------- ABSORB / ENTRY (evidence)
-    r3 = rep.rule("C12.ABSORB" + sfx, 3,
+    r3 = rep.rule("C12.ABSORB" + sfx, 0,
                   "sites of impl ParserState where an Err of the user closure becomes Ok (repeat, optional, "
                   "negative lookahead); obligations only if EXITS fails")
     for b in c.bodies:
@@ -240,7 +241,7 @@ def check(rep, c, cfg):
             if absorbed:
                 r3.violation("absorb:%s" % b["path"], where(n), "absorbs a refusal (%s) and pest::state does "
                              "not look at the tracker on success" % how)
-    r4 = rep.rule("C12.ENTRY" + sfx, 5, "combinators that count a call (evidence only)")
+    r4 = rep.rule("C12.ENTRY" + sfx, 0, "combinators that count a call (evidence only)")
     for p in callers_inc:
         for (q, n) in cg.callers_of(p):
             r4.instance("counts:" + q, where(n), "")
@@ -363,3 +364,42 @@ def setter(rep, c, sfx, ctors):
                             "unlimited (%s)" % (sorted(lits), sorted(thr)))
         else:
             r.note("sentinel comparison skipped for %s: literals %s, thresholds %s" % (key, sorted(lits), sorted(thr)))
+
+
+# ---------------------------------------------------------------- WIDTH
+
+INTS = ("u8", "u16", "u32", "u64", "u128", "usize", "i8", "i16", "i32", "i64", "i128", "isize")
+
+
+def width(rep, c, sfx, ctors, adt):
+    import re
+    r = rep.rule("C12.WIDTH" + sfx, 2,
+                 "the limit keeps its integer type from the setter's argument to the comparison: the tracker stores it "
+                 "in the width of the process-wide setting and no function that touches the setting or the tracker "
+                 "casts between integer types (a narrowed limit L behaves like L mod 2^k: a parse that completes "
+                 "under n calls is refused under 2^k + n)")
+    gty = None
+    for it in c.bodies:
+        if it["path"] == GLOBAL:
+            gty = it.get("output") or ""
+    want = "usize" if "AtomicUsize" in (gty or "AtomicUsize") else None
+    fty = adt["variants"][0]["fields"][0]["ty"]
+    ints = set(re.findall(r"\b(%s)\b" % "|".join(INTS), fty))
+    r.instance("field-type", where(adt) if isinstance(adt, dict) and adt.get("sp") else "", fty)
+    if want and ints and ints != {want}:
+        r.violation("field-type", adt.get("sp", ""), "the tracker stores the limit as %s, the process-wide setting is %s: "
+                    "limits above the narrower range wrap around" % (sorted(ints), want))
+    scan = []
+    for b in c.bodies:
+        if b.get("body") is None or "::tests::" in b["path"]:
+            continue
+        if b["path"] in ctors or b.get("impl_self") == TRACKER or any(
+                kind(n) == "Path" and n.get("path") == GLOBAL for n in walk(b["body"])):
+            scan.append(b)
+    for b in scan:
+        r.instance("no-cast:" + b["path"].replace("pest::parser_state::", ""), where(b["body"]))
+        for n in walk(b["body"]):
+            if kind(n) == "Cast" and n.get("ty") in INTS and (n["e"].get("ty") in INTS) and n.get("ty") != n["e"].get("ty"):
+                r.violation("no-cast:" + b["path"].replace("pest::parser_state::", ""), where(n),
+                            "`%s as %s` in %s changes the width of the call limit / counter" % (
+                                hirq.expr_text(n["e"])[:60], n.get("ty"), b["name"]))
